@@ -305,57 +305,82 @@ def r15_5(ctx):
                       found="%s inside loops %s under guards %s" % (ast.unparse(c), kinds, [ast.unparse(g[0]) for g in guards]), fi=f, node=c)
 
 
-@rule("R15.6", min_instances=4, desc="substitution lists of the certificate are built in lock-step (state i <-> spline i; inf_der keys <-> values; inert keys <-> values) and a failed placement only drops on IndexError")
+@rule("R15.6", min_instances=4, desc="substitution lists of the certificate are built in lock-step (state i <-> spline of state i; derivative symbol <-> scaled derivative of the spline of ITS state; inert symbol <-> its expression) - decided on a simulated add_inf_constraints; a failed placement only drops on IndexError")
 def r15_6(ctx):
+    from ..sim import Sim, fresh_obj
+    from ..layout import Sym, Obj, freeze, short, LayoutUnknown
     prog = ctx.prog
     f = prog.method("SamplingMethod", "add_inf_constraints")
-    src = {"from": [], "to": []}
-    names = {}
-    # identify the two lists from the reinterpret_expr call
-    calls = [c for c in walk_no_nested(f.node) if is_call_to(c, "reinterpret_expr")]
-    if len(calls) != 1 or len(calls[0].args) != 3:
+    K = freeze
+    x0, x1 = fresh_obj("x0", n=1), fresh_obj("x1", n=2)
+    d0, d1, i0 = Sym("der_sym", 0), Sym("der_sym", 1), Sym("inert_sym", 0)
+    e0 = Sym("inert_expr", 0)
+    stage = fresh_obj("stage", states=[x0, x1], nx=3, _inf_der={K(d0): x1, K(d1): x0}, _inf_inert={K(i0): e0},
+                      _method=fresh_obj("method", poly_coeff=[fresh_obj("coeff", shape=(3, 5))]))
+    me = fresh_obj("self", M=1, N=2, control_grid=[Sym("t", 0), Sym("t", 1), Sym("t", 2)])
+    calls = []
+
+    def h_reinterpret(sim, recv, args, kwargs, n):
+        calls.append(args)
+        return Sym("c_spline")
+
+    def h_horzsplit(sim, recv, args, kwargs, n):
+        if len(args) == 2 and isinstance(args[1], list) and all(isinstance(v, int) for v in args[1]):
+            return [Sym("piece", args[1][q], args[1][q + 1]) for q in range(len(args[1]) - 1)]
+        return NotImplemented
+
+    def h_cumsum(sim, recv, args, kwargs, n):
+        if args and isinstance(args[0], list) and all(isinstance(v, int) for v in args[0]):
+            out, tot = [], 0
+            for v in args[0]:
+                tot += v
+                out.append(tot)
+            return out
+        return NotImplemented
+    hooks = {"reinterpret_expr": h_reinterpret, "horzsplit": h_horzsplit, "np.cumsum": h_cumsum, "cumsum": h_cumsum,
+             ".nnz": lambda s_, r, a, k, n: r.attrs["n"] if isinstance(r, Obj) and "n" in r.attrs else NotImplemented,
+             ".numel": lambda s_, r, a, k, n: r.attrs["n"] if isinstance(r, Obj) and "n" in r.attrs else NotImplemented,
+             "BSpline": lambda s_, r, a, k, n: Sym("spline", freeze(a[1]) if len(a) > 1 else None),
+             "dict": lambda s_, r, a, k, n: ({freeze(p[0]): p[1] for p in a[0]} if a and isinstance(a[0], list) else (dict(k) if not a else NotImplemented))}
+    try:
+        Sim(prog, hooks=hooks).call(f, [me, stage, Sym("opti"), Sym("c"), 0, 0, Sym("meta")], {})
+    except LayoutUnknown as e:
+        raise AnalysisError("add_inf_constraints could not be simulated: %s" % e)
+    if len(calls) != 1 or len(calls[0]) != 3:
         raise AnalysisError("add_inf_constraints: expected one reinterpret_expr(c, from, to) call")
-    c0 = calls[0]
-    fr, to = c0.args[1], c0.args[2]
-    if not (isinstance(fr, ast.Name) and isinstance(to, ast.Name)):
-        raise AnalysisError("add_inf_constraints: substitution lists are not plain names")
-    ctx.check(ast.unparse(c0.args[0]) == f.params[3], "reinterpret_expr receives the declared constraint", detail="another expression is certified",
-              expected=f.params[3], found=ast.unparse(c0.args[0]), fi=f, node=c0)
+    c, fr, to = calls[0]
+    ctx.check(K(c) == K(Sym("c")), "reinterpret_expr receives the declared constraint", detail="another expression is certified", expected="c", found=short(c), fi=f)
+    fr = list(fr) if isinstance(fr, (list, tuple)) else None
+    to = list(to) if isinstance(to, (list, tuple)) else None
+    ok = fr is not None and to is not None and len(fr) == len(to) == 5
+    ctx.check(ok, "substitution lists grow in lock-step", detail="from/to lists differ in number of parts", expected="5 symbols and 5 replacements (2 states, 2 derivative symbols, 1 inert symbol)",
+              found="%s vs %s" % (len(fr) if fr is not None else None, len(to) if to is not None else None), fi=f)
+    if ok:
+        pos = {K(v): q for q, v in enumerate(fr)}
+        want_syms = [K(x0), K(x1), K(d0), K(d1), K(i0)]
+        okp = sorted(map(repr, pos)) == sorted(map(repr, want_syms))
 
-    def pieces(name):
-        out = []
-        for node in f.node.body:
-            if isinstance(node, ast.Assign) and len(node.targets) == 1 and isinstance(node.targets[0], ast.Name) and node.targets[0].id == name:
-                out.append(node.value)
-            if isinstance(node, ast.AugAssign) and isinstance(node.target, ast.Name) and node.target.id == name:
-                out.append(node.value)
-            # canonical forms of `L += [..]`
-            if isinstance(node, ast.Expr) and is_call_to(node.value, "extend", name) and len(node.value.args) == 1:
-                out.append(node.value.args[0])
-            if isinstance(node, ast.Expr) and is_call_to(node.value, "append", name) and len(node.value.args) == 1:
-                out.append(ast.List(elts=[node.value.args[0]], ctx=ast.Load()))
-        return out
-
-    pf, pt = pieces(fr.id), pieces(to.id)
-    ctx.check(len(pf) == len(pt) and len(pf) >= 3, "substitution lists grow in lock-step", detail="from/to lists differ in number of parts",
-              expected="equal number of parts (states, inf_der, inf_inert)", found="%d vs %d" % (len(pf), len(pt)), fi=f)
-
-    def source(v):
-        t = ast.unparse(v)
-        if "stage.states" in t or "state_coeff_split" in t:
-            return "states"
-        if "_inf_der" in t:
-            return "inf_der:" + ("keys" if ".keys()" in t else "values" if ".values()" in t else "?")
-        if "_inf_inert" in t:
-            return "inf_inert:" + ("keys" if ".keys()" in t else "values" if ".values()" in t else "?")
-        return t
-
-    seq_f = [source(v) for v in pf]
-    seq_t = [source(v) for v in pt]
-    want_f = ["states", "inf_der:keys", "inf_inert:keys"]
-    want_t = ["states", "inf_der:values", "inf_inert:values"]
-    ctx.check(seq_f == want_f and seq_t == want_t, "substitution pairing", detail="symbols and replacements are not paired",
-              expected="%s <-> %s" % (want_f, want_t), found="%s <-> %s" % (seq_f, seq_t), fi=f, sample={"from": seq_f, "to": seq_t})
+        def contains(t, sub):
+            stack = [t]
+            while stack:
+                y = stack.pop()
+                if y == sub:
+                    return True
+                if isinstance(y, tuple):
+                    stack.extend(y)
+            return False
+        pieces = {K(x0): ("piece", 0, 1), K(x1): ("piece", 1, 3)}
+        pairing = []
+        if okp:
+            for sym, state in ((K(x0), K(x0)), (K(x1), K(x1)), (K(d0), K(x1)), (K(d1), K(x0))):
+                t = K(to[pos[sym]])
+                mine, other = pieces[state], [v for k_, v in pieces.items() if k_ != state][0]
+                good = contains(t, mine) and not contains(t, other) and (sym in (K(x0), K(x1)) or contains(t, "derivative"))
+                pairing.append((short(fr[pos[sym]])[:20], good))
+            pairing.append(("inert", K(to[pos[K(i0)]]) == K(e0)))
+        okp = okp and all(g for _, g in pairing)
+        ctx.check(okp, "substitution pairing", detail="symbols and replacements are not paired", expected="state i <-> spline of block i; derivative symbol <-> derivative of the spline of its own state; inert symbol <-> its expression",
+                  found=str(pairing), fi=f, sample={"pairing": str(pairing)})
     # try/except discipline
     for t in [x for x in walk_no_nested(f.node) if isinstance(x, ast.Try)]:
         ok = all(h.type is not None and ast.unparse(h.type) == "IndexError" for h in t.handlers) and len(t.body) == 1
